@@ -60,11 +60,15 @@ static int announced;
 static int wakeups_reported;   /* wait calls that returned 0 after actually waiting */
 static volatile int announced_ge[SLOTS + 1];
 static int uses_fresh;
+static int late_waker;          /* the program's wake-up operation is S' or B' */
+static int n_wake_ops;          /* S/B/S'/B'/s/Sr/Br operations in the program */
+static int sdata;               /* plain client datum written right before a wake-up issued outside the critical section */
 
 static int is_waiter (const char *o) { return (o[0] == 'C' || o[0] == 'W') && o[1] != 0 && strchr ("wrgn", o[1]) != NULL; }
 static int cv_setup (const char *program) {
 	int t, k, n = h_parse (program), waiters = 0, notifier = 0, fresh = 0;
 	if (n < 1) return -1;
+	n_wake_ops = 0; late_waker = 0;
 	for (t = 0; t < n; t++) for (k = 0; k < h_nops[t]; k++) {
 		const char *o = h_op[t][k];
 		if (is_waiter (o)) {
@@ -75,7 +79,8 @@ static int cv_setup (const char *program) {
 			if (o[1] == 'n' && o[2] != 0 && o[2] != 'd' && o[2] != 'p') return -1;
 			if (o[1] == 'n' && o[2] != 0 && o[3] != 0) return -1;
 			waiters++;
-		} else if (!strcmp (o, "S") || !strcmp (o, "B") || !strcmp (o, "S'") || !strcmp (o, "B'") || !strcmp (o, "s") || !strcmp (o, "L") || !strcmp (o, "R") || !strcmp (o, "F") || !strcmp (o, "Sr") || !strcmp (o, "Br")) {
+		} else if (!strcmp (o, "S") || !strcmp (o, "B") || !strcmp (o, "S'") || !strcmp (o, "B'") || !strcmp (o, "s") || !strcmp (o, "Sr") || !strcmp (o, "Br")) { n_wake_ops++; if (o[1] == '\'') late_waker = 1;
+		} else if (!strcmp (o, "L") || !strcmp (o, "R") || !strcmp (o, "F")) {
 		} else if (!strcmp (o, "dm") || !strcmp (o, "dM") || !strcmp (o, "dc") || !strcmp (o, "dC")) {
 		} else if (!strcmp (o, "N")) notifier = 1;
 		else if (o[0] == '@' && o[1] >= '1' && o[1] <= '9' && o[2] == 0) { if (o[1] - '0' > SLOTS) return -1; }
@@ -136,6 +141,7 @@ MC_ORACLE static void wake_issued (int k) { kr[k].issued = 1; }
 static void write_section (void) { int v; mc_point (); v = datum; datum = v + 1; }
 static void read_section (void) { int v1 = datum, v2; mc_point (); v2 = datum; mc_assert (v1 == v2, "reader saw the datum change inside its read section"); }
 
+MC_ORACLE static int sole_late_waker (void) { return n_wake_ops == 1 && nkr == 1 && late_waker; }
 static int do_wait (int slot, const char *o) {
 	int mode = o[1], reader = (mode == 'r'), r = 0, loop = (o[0] == 'W');
 	const char *p = o + 2;
@@ -162,6 +168,10 @@ static int do_wait (int slot, const char *o) {
 		}
 		h_enter (&mu, !reader, "return from a condition-variable wait");
 		returned (slot, r, reader, mode == 'g' || mode == 'n');
+		/* C03: "a signal [happens] before the woken waiter's return".  If this wait reports a wake-up and
+		   the program's only wake-up is one issued after its critical section, what the waker wrote just
+		   before issuing it must be visible here (a plain read, judged by the happens-before monitor). */
+		if (r == 0 && sole_late_waker ()) mc_assert (sdata == 1, "datum written before the wake-up is not visible to the woken waiter");
 		if (!loop) break;
 	}
 	if (reader) read_section (); else write_section ();
@@ -213,7 +223,7 @@ static void cv_thread (int me) {
 			mc_point ();
 			if (!after) { if (b) nsync_cv_broadcast (&cv); else nsync_cv_signal (&cv); wake_issued (w); }
 			h_leave (&mu, 1); nsync_mu_unlock (&mu);
-			if (after) { if (b) nsync_cv_broadcast (&cv); else nsync_cv_signal (&cv); wake_issued (w); }
+			if (after) { sdata = 1; if (b) nsync_cv_broadcast (&cv); else nsync_cv_signal (&cv); wake_issued (w); }
 		} else if (o[0] == 'd') do_debug (o);
 		else if (o[0] == 'N') nsync_note_notify (note_fresh);
 		else if (o[0] == 'L') { nsync_mu_lock (&mu); h_enter (&mu, 1, "nsync_mu_lock"); write_section (); h_leave (&mu, 1); nsync_mu_unlock (&mu); }
